@@ -791,6 +791,26 @@ func (t *fnTr) callStmt(call *ast.CallExpr, lhs []ast.Expr, d int, rest cont) st
 	return s + rest(d)
 }
 
+// isMutexCall: Lock/Unlock/RLock/RUnlock of sync.Mutex / sync.RWMutex (skipped: C10's subject).
+func isMutexCall(fn *types.Func) bool {
+	if fn == nil || fn.Pkg() == nil || fn.Pkg().Path() != "sync" {
+		return false
+	}
+	sig, ok := fn.Type().(*types.Signature)
+	if !ok || sig.Recv() == nil {
+		return false
+	}
+	rt := sig.Recv().Type().String()
+	if !strings.HasSuffix(rt, "sync.Mutex") && !strings.HasSuffix(rt, "sync.RWMutex") {
+		return false
+	}
+	switch fn.Name() {
+	case "Lock", "Unlock", "RLock", "RUnlock":
+		return true
+	}
+	return false
+}
+
 func projTuple(v string, i, n int) string {
 	// (a, b, c) is a × (b × c)
 	s := v
@@ -815,7 +835,7 @@ func (t *fnTr) stmts(list []ast.Stmt, d int, k cont) string {
 	case *ast.BlockStmt:
 		return t.stmts(s.List, d, rest)
 	case *ast.DeferStmt:
-		if fn := callee(info, s.Call); fn != nil && fn.Pkg() != nil && fn.Pkg().Path() == "sync" {
+		if isMutexCall(callee(info, s.Call)) {
 			return rest(d) // locking is C10's subject
 		}
 		t.fail(s, "defer")
@@ -824,7 +844,7 @@ func (t *fnTr) stmts(list []ast.Stmt, d int, k cont) string {
 		if !ok {
 			t.fail(s, "expression statement")
 		}
-		if fn := callee(info, call); fn != nil && fn.Pkg() != nil && fn.Pkg().Path() == "sync" {
+		if isMutexCall(callee(info, call)) {
 			return rest(d)
 		}
 		return t.callStmt(call, nil, d, rest)
@@ -1464,4 +1484,61 @@ func quoteAll(l []string) string {
 		q = append(q, leanStr(s))
 	}
 	return strings.Join(q, ", ")
+}
+
+// genFnSurvey: which functions of the module does the translator accept as they are?  (a fixpoint over
+// all functions, callees first; printed to stdout — a development aid, no Lean output)
+func genFnSurvey(w *world) string {
+	t := &fnTr{w: w, fns: map[*types.Func]*fnInfo{}, structs: map[string]*types.Named{}, structRefs: map[string]map[string]bool{}}
+	type ent struct {
+		key string
+		fd  *ast.FuncDecl
+		p   *packages.Package
+	}
+	var all []ent
+	for _, p := range w.pkgs {
+		for _, f := range p.Syntax {
+			if strings.Contains(w.fset.Position(f.Pos()).Filename, "verif") {
+				continue
+			}
+			for _, d := range f.Decls {
+				if fd, ok := d.(*ast.FuncDecl); ok && fd.Body != nil {
+					all = append(all, ent{funcKey(p, fd), fd, p})
+				}
+			}
+		}
+	}
+	done := map[string]bool{}
+	reason := map[string]string{}
+	var order []string
+	for changed := true; changed; {
+		changed = false
+		for _, e := range all {
+			if done[e.key] {
+				continue
+			}
+			t.p = e.p
+			obj, _ := e.p.TypesInfo.Defs[e.fd.Name].(*types.Func)
+			fi := &fnInfo{key: e.key, leanName: strings.ReplaceAll(e.key, ".", "_"), hasRecv: e.fd.Recv != nil, obj: obj}
+			t.refs = map[string]bool{}
+			if _, err := t.function(e.fd, fi); err != nil {
+				reason[e.key] = err.Error()
+				continue
+			}
+			t.fns[obj] = fi
+			done[e.key] = true
+			order = append(order, e.key)
+			changed = true
+		}
+	}
+	var sb strings.Builder
+	for _, k := range order {
+		fmt.Fprintf(&sb, "OK   %s\n", k)
+	}
+	for _, e := range all {
+		if !done[e.key] {
+			fmt.Fprintf(&sb, "NO   %-55s %s\n", e.key, reason[e.key])
+		}
+	}
+	return sb.String()
 }
